@@ -57,7 +57,7 @@ func (f *c03MapFile) Text(rng *rand.Rand) string {
 
 func c03MapFor(bind map[string]string, qname string) (string, bool) { return model.MapFor(bind, qname) }
 
-func c03GenMapFile(rng *rand.Rand, allowZero bool) *c03MapFile {
+func c03GenMapFile(rng *rand.Rand, allowZero, big bool) *c03MapFile {
 	f := &c03MapFile{Maps: map[string][]model.Subnet{}, Resolver: map[string]string{}, ECS: map[string]string{}}
 	ids := []string{"\x00\x00", "Ma", "Mb", "\x00\x07", "ec", "e2"}
 	nm := 1 + rng.Intn(len(ids))
@@ -68,7 +68,11 @@ func c03GenMapFile(rng *rand.Rand, allowZero bool) *c03MapFile {
 			f.Maps[id] = nil // a map that is bound to names but declares no subnet
 			continue
 		}
-		f.Maps[id] = model.GenSubnets(rng, 1+rng.Intn(4), model.SubnetOpts{AllowZeroNetwork: allowZero, MaxN: 12})
+		maxN := 12
+		if big {
+			maxN = 160 // maps with more than 100 range points (the text emitter hands them over in chunks of 100)
+		}
+		f.Maps[id] = model.GenSubnets(rng, 1+rng.Intn(4), model.SubnetOpts{AllowZeroNetwork: allowZero, MaxN: maxN})
 	}
 	names := []string{"example.com", "www.example.com", "a.www.example.com", "b.a.www.example.com", "other.example.com", "example.org", "x.example.org", "com", "zz"}
 	binds := []string{"example.com", "*.example.com", "www.example.com", "*.www.example.com", "*.a.www.example.com", "b.a.www.example.com", "*.", "*.com", "x.example.org", "*.example.org"}
@@ -112,13 +116,15 @@ type c03Cfg struct {
 	name     string
 	backend  harness.Backend
 	separate bool
+	// preprocess: the file goes through the preprocessor first (range points as '!' text lines), then the compiler
+	preprocess bool
 }
 
 var c03Cfgs = []c03Cfg{
-	{"cdb-combined", harness.Backends[0], false},
-	{"cdb-separate", harness.Backends[0], true},
-	{"rdb1", harness.Backends[1], false},
-	{"rdb2", harness.Backends[2], false},
+	{name: "cdb-combined", backend: harness.Backends[0]},
+	{name: "cdb-separate", backend: harness.Backends[0], separate: true},
+	{name: "rdb1", backend: harness.Backends[1]},
+	{name: "rdb2", backend: harness.Backends[2]},
 }
 
 func c03PackName(n string) []byte {
@@ -148,8 +154,21 @@ func c03CheckFile(f *c03MapFile, text string, rng *rand.Rand, r *report.Run) (ms
 		rng.Shuffle(len(probes), func(i, j int) { probes[i], probes[j] = probes[j], probes[i] })
 		probes = probes[:400]
 	}
-	for _, cfg := range c03Cfgs {
-		path, err := harness.Compile([]byte(text), cfg.backend)
+	// the same table reaches RocksDB a second way: the preprocessor writes the derived range points as text ('!' lines)
+	// and that text is compiled - the last configuration goes through it
+	cfgs := append([]c03Cfg{}, c03Cfgs...)
+	cfgs = append(cfgs, c03Cfg{name: "rdb1-from-preprocessed-text", backend: harness.Backends[1], preprocess: true})
+	for _, cfg := range cfgs {
+		input := []byte(text)
+		if cfg.preprocess {
+			pre, err := c09Preprocess(input)
+			if err != nil {
+				return fmt.Sprintf("%s: Preprocess failed: %v", cfg.name, err), zeroClass
+			}
+			input = pre
+			r.Count("b_files_compiled_from_preprocessed_text", 1)
+		}
+		path, err := harness.Compile(input, cfg.backend)
 		if err != nil {
 			harness.Remove(path)
 			return fmt.Sprintf("%s: compile failed: %v", cfg.name, err), zeroClass
@@ -288,7 +307,7 @@ func c03Reader(r *report.Run, rng *rand.Rand) {
 	zc := 0
 	for i := 0; i < n; i++ {
 		allowZero := i%8 == 0
-		f := c03GenMapFile(rng, allowZero)
+		f := c03GenMapFile(rng, allowZero, i%6 == 5)
 		text := f.Text(rng)
 		msg, zero := c03CheckFile(f, text, rng, r)
 		r.Eval(1)
